@@ -249,6 +249,8 @@ def rmelody_j(rng, n=(1, 4)):
 
 def vary_melody(rng, j, field):
     notes = [dict(n) for n in j['notes']]
+    if not notes and field != 'append':
+        return None
     if field == 'drop':
         if len(notes) < 2:
             return None
@@ -315,7 +317,8 @@ def rext(rng):
 def rchord_j(rng, nparts=(0, 3), wide_ton=False):
     names = rng.sample(PARTS, rng.randint(*nparts))
     return {'elem': rng.randrange(7), 'ext': rext(rng), 'ton': rton_j(rng, wide=wide_ton), 'oct': rng.choice([0, 0, 1, -1]),
-            'parts': [[nm, rmelody_j(rng, n=(1, 3))] for nm in names]}
+            # a part may hold an empty melody (what a zero-length slice or a filter leaves behind): seed C20-4
+            'parts': [[nm, rmelody_j(rng, n=((0, 0) if rng.random() < 0.06 else (1, 3)))] for nm in names]}
 
 
 CHORD_FIELDS = ['elem', 'ext-respell', 'ext-fig', 'ext-5', 'ton-deg', 'ton-mode', 'ton-oct', 'ton-respell', 'oct',
@@ -707,6 +710,14 @@ def copy_class(kind, j, o, c):
     return 'other'
 
 
+def srepr(x):
+    """printed form for a report; printing itself can raise (an un-normalised tonality degree has no name)"""
+    try:
+        return esc(repr(x))
+    except Exception as e:
+        return f'<unprintable: {type(e).__name__}: {e}>'
+
+
 def check_copy(inp):
     """oracle `copy`: an object equals its copy (and, where hashable, hashes like it)"""
     kind = inp['kind']
@@ -719,7 +730,7 @@ def check_copy(inp):
         return {'observed': f'copy() -> {c}', 'expected': 'a copy', 'sig': f'copy-raises:{kind}'}
     ok, r = _try(lambda: (o == c, c == o))
     if not ok or r != (True, True):
-        return {'observed': f'(x == x.copy(), x.copy() == x) = {r}; x = {esc(repr(o))[:300]}, copy = {esc(repr(c))[:300]}',
+        return {'observed': f'(x == x.copy(), x.copy() == x) = {r}; x = {srepr(o)[:300]}, copy = {srepr(c)[:300]}',
                 'expected': (True, True), 'sig': f'copy:{kind}:{copy_class(kind, j, o, c)}'}
     return None
 
